@@ -14,22 +14,23 @@ from pathlib import Path
 VERIF = Path(__file__).resolve().parent.parent
 prop = sys.argv[1]
 runs = sys.argv[sys.argv.index("--runs") + 1] if "--runs" in sys.argv else "200"
-configs = [("0", "16"), ("0", "16"), ("12345", "16"), ("0", "3"), ("987", "7")]
+# (PYTHONHASHSEED, workers, every seed in its own forked child?)
+configs = [("0", "16", False), ("0", "16", False), ("12345", "16", False), ("0", "3", False), ("987", "7", False), ("0", "16", True)]
 outs = []
 tmp = Path(tempfile.mkdtemp(prefix="mxlpy-det."))
 try:
-    for i, (hs, jobs) in enumerate(configs):
+    for i, (hs, jobs, iso) in enumerate(configs):
         f = tmp / f"d{i}.json"
         env = dict(os.environ, SIMKIT_HASHSEED=hs)
         p = subprocess.run(
-            [str(VERIF / "check"), prop, "--runs", runs, "--jobs", jobs, "--digests", str(f), "--no-evidence", "--no-shrink", "--budget", "3000"],
+            [str(VERIF / "check"), prop, "--runs", runs, "--jobs", jobs, "--digests", str(f), "--no-evidence", "--no-shrink", "--budget", "3000", *(["--isolate"] if iso else [])],
             env=env, capture_output=True, text=True, check=False, timeout=7200,
         )
         if p.returncode == 2:
             print(p.stdout[-2000:], p.stderr[-2000:])
             sys.exit(2)
         outs.append(json.loads(f.read_text()))
-        print(f"config hashseed={hs} jobs={jobs}: {len(outs[-1])} digests, exit {p.returncode}")
+        print(f"config hashseed={hs} jobs={jobs} isolate={iso}: {len(outs[-1])} digests, exit {p.returncode}")
     bad = 0
     for k in outs[0]:
         vals = {o.get(k) for o in outs}
